@@ -70,9 +70,27 @@ def exts_of(rec):
         e.append(X.ext_key_usage(rec['ku'], critical=rec['ku_critical']))
     if rec['eku'] is not None:
         e.append(X.ext_eku(rec['eku'], critical=rec['eku_critical']))
-    if rec['unknown_ext'] is not None:
+    if isinstance(rec['unknown_ext'], tuple):
+        # an unrecognised critical OID that a sloppy OID decoder would take for a recognised one
+        e.append(X.ext(rec['unknown_ext'][1], True, rec['unknown_ext'][2]))
+    elif rec['unknown_ext'] is not None:
         e.append(X.ext_unknown(rec['unknown_ext'] == 'critical'))
     return e
+
+
+def alias_oids(rng):
+    """(dotted OID, value DER) of unrecognised extension OIDs that collide with recognised ones under arc arithmetic modulo
+    2^32 / 2^64, an extra trailing arc, or a dropped last arc; the values are well-formed for the recognised extension."""
+    crldp = X.seq(X.seq(X.explicit(0, X.tlv(0xA0, X.tlv(0x86, b'http://example.test/c.crl')))))
+    known = [(31, crldp), (54, X.integer(0)), (32, X.seq(X.seq(X.oid('2.5.29.32.0')))), (36, X.seq(X.tlv(0x80, b'\x00'))),
+             (37, X.seq(X.oid('1.3.6.1.5.5.7.3.1'))), (17, X.seq(X.tlv(0x82, b'example.test'))), (14, X.octets(bytes(20)))]
+    arc, val = rng.choice(known)
+    kind = rng.choice(['+2^32', '+2^32', '+2^33', '+2^64', 'trailing-arc', 'parent-arc'])
+    if kind == 'trailing-arc':
+        return '2.5.29.%d.%d' % (arc, rng.choice([0, 1])), val
+    if kind == 'parent-arc':
+        return '2.5.%d' % (29 + (1 << 32)), val
+    return '2.5.29.%d' % (arc + {'+2^32': 1 << 32, '+2^33': 1 << 33, '+2^64': 1 << 64}[kind]), val
 
 
 def build(rec, issuer_rec, foreign_priv):
@@ -110,7 +128,7 @@ def accept_ref(chain, anchors, role, depth, now, enc=None):
     for rec in chain + ([enc] if enc else []):
         if not (rec['nb'] <= now <= rec['na']):
             return False, 'validity'
-        if rec['unknown_ext'] == 'critical':
+        if rec['unknown_ext'] == 'critical' or isinstance(rec['unknown_ext'], tuple):
             return False, 'unknown-critical-extension'
         if rec['sig'] != 'good' or rec['issuer_name'] != 'match':
             return False, 'link'
@@ -161,7 +179,7 @@ def toolkit_shaped(chain, root, anchors, role, depth, now, enc=None):
 DEFECTS = ['validity-expired', 'validity-notyet', 'validity-edge-after', 'validity-edge-at', 'validity-edge-before', 'bc-absent', 'bc-cafalse',
            'bc-pathlen-low', 'bc-pathlen-high', 'bc-pathlen-absent', 'ku-absent', 'ku-digsig-only', 'ku-both', 'ku-keyenc',
            'ku-noncritical', 'eku-server', 'eku-client', 'eku-any', 'eku-critical-server', 'sig-corrupt', 'sig-foreign', 'issuer-mismatch',
-           'unknown-ext', 'unknown-critical-ext', 'version-v1', 'leaf-is-ca', 'ku-certsign-on-leaf']
+           'unknown-ext', 'unknown-critical-ext', 'unknown-critical-ext-alias', 'version-v1', 'leaf-is-ca', 'ku-certsign-on-leaf']
 
 
 def mutate(rec, d, pos, n_inter, rng):
@@ -213,6 +231,9 @@ def mutate(rec, d, pos, n_inter, rng):
         rec['unknown_ext'] = 'noncritical'
     elif d == 'unknown-critical-ext':
         rec['unknown_ext'] = 'critical'
+    elif d == 'unknown-critical-ext-alias':
+        o, v = alias_oids(rng)
+        rec['unknown_ext'] = ('critical', o, v)
     elif d == 'version-v1':
         rec['version'] = 0
         rec['bc'] = rec['ku'] = rec['eku'] = rec['unknown_ext'] = None     # v1 has no extensions
